@@ -27,6 +27,9 @@ OUTPUTS = [
     'tab\there\n', '%s %d %%\n', 'line1\n\nline3\n',
     'loaded 12 plugins, python 3.11.4\n', 'report for site A on 12/25/2031\nsecond line\n',
     'build 7.30.1999 done\n',
+    # full date-and-time stamps (constant text here, not the time of the run) next to ordinary lines
+    'started 2024-01-15 10:20:30\nresult 42\n', 'log 2021-06-15T12:30:00.123456 ok\nplain line\n',
+    'Mon Jan 15 10:20:30 2024\nvalue=7\n',
 ]
 
 
@@ -175,11 +178,14 @@ def do_case(args):
             gone = dict(case['files'])
             del gone[name]
             changes.append(('file-deleted', dict(files=gone, _delete=name), None))
+        if case.get('extra_changed'):
+            # environment-dependent outputs (a file under $TMPDIR is checked by default): the same lines, altered
+            changes.append(('tmpdir-file', dict(extra=case['extra_changed']), None))
         for kind, delta, testname in changes:
             c2 = dict(case)
             c2.update({k: v for k, v in delta.items() if not k.startswith('_')})
             if c2['out'] == case['out'] and c2['err'] == case['err'] and c2['code'] == case['code'] \
-                    and c2['files'] == case['files']:
+                    and c2['files'] == case['files'] and c2.get('extra') == case.get('extra'):
                 continue
             make_cmd(work, c2['out'], c2['err'], c2['code'], c2['files'], c2.get('extra', ()))
             if delta.get('_delete'):
@@ -260,6 +266,10 @@ def gen_cases(tier, seed):
     for name, extra in env_lines:
         cases.append(dict(out='hello\n', err='', code=0, files={'o.txt': 'data\n'}, refs=['o.txt'],
                           script='test_env_' + name, iterations=2, extra=extra))
+    # a file written under the temporary directory gentest provides is checked without being named
+    cases.append(dict(out='hello\n', err='', code=0, files={}, refs=[], script='test_env_tmpfile', iterations=2,
+                      extra=['echo "scratch data" > "$TMPDIR/scratch.txt"'],
+                      extra_changed=['echo "scratch data CHANGED" > "$TMPDIR/scratch.txt"']))
     cases.append(dict(out='hello\n', err='', code=0, files={}, refs=[], script='test_env_ns', iterations=3, no_stdout=True,
                       extra=['echo "scratch files in $TMPDIR/b" >&2']))
     cases.append(dict(out='hello\n', err='', code=0, files={}, refs=[], script='test_env_ne', iterations=2, no_stderr=True,
